@@ -289,4 +289,37 @@ example :
         (fun r => r.snap.map (fun S => S.map (fun o => (o.oid, o.uid, o.euid))))).getLast? =
       some (some [("bba", some "Backbone", none), ("m", some "Root", none)]) := by decide
 
+/-- non-vacuity (round 5), bind(): `u2a` (euid 0) binds a load to `u1a` (euid u1): refused while valid_bind says 0, the
+    load then runs as `u1a` and creates; bound to itself nobody is asked and the euid test refuses -/
+example :
+    let pol : Policy := { cf := fun _ _ => .str "u1", vs := fun _ _ _ => .int 1, script := fun _ _ => [], co := fun _ _ => .silent,
+                          vb := fun i _ _ => if i = 3 then .int 0 else .int 1 }
+    let tr := events { root := "Root", bb := some "Backbone" } pol 3
+      [("m", .load ⟨"u1", "a"⟩), ("m", .load ⟨"u2", "a"⟩), ("u1a", .seteuidStr "u1"),
+       ("u2a", .bind "u1a" (.load ⟨"u1", "b"⟩)), ("u2a", .bind "u1a" (.load ⟨"u1", "b"⟩)), ("u2a", .bind "u2a" (.load ⟨"u1", "c"⟩))]
+    (tr.filterMap (fun r => r.res.map (fun x => (r.actor, x)))) =
+      [("m", .oid "u1a"), ("m", .oid "u2a"), ("u1a", .int 1), ("u2a", .err .bindDenied),
+       ("u1a", .oid "u1b"), ("u2a", .oid "s:u1"), ("u2a", .err .noEuidLoad), ("u2a", .int 0)] ∧
+    (tr.filterMap (·.vb)).map (·.2.2) = [.int 0, .int 1] := by decide
+
+/-- policy of the next example -/
+def polDropRoot : Policy :=
+  { cf := fun _ _ => .str "Backbone", vs := fun _ _ _ => .int 1, script := fun _ _ => [], co := fun _ _ => .silent,
+    cfDrop := fun i _ => decide (i = 0), root := fun i => if i = 1 then some "zed" else none }
+
+/-- uid / euid of everybody after each segment -/
+def uidsAlong (tr : List StepRec) : List (Oid × List (Oid × Option Name × Option Name)) :=
+  tr.map (fun r => (r.actor, (r.snap.getD []).map (fun o => (o.oid, o.uid, o.euid))))
+
+/-- non-vacuity (round 5), re-entrancy and master reload: creator_file makes the master drop its euid before it answers
+    "Backbone" - the new object gets uid "Backbone" and NO euid (not the dropped "Root"); a master reloaded after
+    get_root_uid() changed to "zed" is zed / zed while the object created before keeps its names -/
+example :
+    uidsAlong (events { root := "Root", bb := some "Backbone" } polDropRoot 2 [("m", .load ⟨"bb", "a"⟩), ("m", .dest "m")]) =
+      [("m", [("m", some "Root", some "Root")]),
+       ("m", [("m", some "Root", none)]),
+       ("m", [("bba", some "Backbone", none), ("m", some "Root", none)]),
+       ("m", [("bba", some "Backbone", none), ("m", some "Root", none)]),
+       ("m", [("m", some "zed", some "zed"), ("bba", some "Backbone", none)])] := by decide
+
 end NV.C20
